@@ -448,8 +448,31 @@ def r19_3(rep: Report) -> None:
         want = (-60, -1, 0) if negative else (60, 1, 0)
         label = "offset for '-'" if negative else "offset for '+'"
         if lf is None:
-            raise AnalysisError('FixedOffsetTimeZone.__init__: offset computation not recognised '
-                                '(unknown idiom)')
+            # not a linear form this rule reads: evaluate the constructor on example offsets instead (the weakest
+            # form of the rule - it decides the examples, not all offsets)
+            raw_init = find_func(cls, '__init__', raw=True) or init
+            sign = '-' if negative else '+'
+            bad = None
+            n_ex = 0
+            for h, m_ in ((0, 0), (0, 30), (0, 59), (1, 0), (3, 30), (5, 45), (9, 30), (11, 59), (12, 0), (12, 45), (13, 0), (14, 0)):
+                text = f'{sign}{h:02d}:{m_:02d}'
+                try:
+                    got = _offset_concrete(raw_init, cls, pat, text)
+                except _Undecided as err:
+                    raise AnalysisError('FixedOffsetTimeZone.__init__: offset computation not recognised '
+                                        f'(unknown idiom: {err})')
+                n_ex += 1
+                want_m = (-1 if negative else 1) * (60 * h + m_)
+                if got != want_m and bad is None:
+                    bad = (text, got, want_m)
+            if bad is None:
+                rep.ok(rid, construct2, label, f'{n_ex} example offsets evaluated (not a linear form)')
+            else:
+                rep.fail(rid, construct2, label,
+                         f'for the offset text `{bad[0]}` the constructor stores {bad[1]} minutes, expected {bad[2]} '
+                         '(evaluated by the checker on the statements of __init__): a date-time with that offset is parsed '
+                         'to another instant and rendered with another offset', init)
+            continue
         if lf == want:
             rep.ok(rid, construct2, label, f'{lf[0]}*hour + {lf[1]}*minute minutes')
         else:
@@ -478,6 +501,199 @@ def r19_3(rep: Report) -> None:
                  'tzinfo group is not converted with parse_timezone', fi)
 
 
+class _Undecided(Exception):
+    pass
+
+
+def _offset_concrete(init: ast.FunctionDef, cls: ast.ClassDef, pat: str, text: str):
+    """the offset FixedOffsetTimeZone.__init__ stores for the offset text `text`, in minutes: the statements of the
+    constructor are evaluated by this checker on the values of the example (the regex match is the stdlib's own
+    on the pattern read from the class; a timedelta is its number of minutes).  No repository code runs.
+    Raises _Undecided on anything outside integers, text, comparisons, if/else and class constants."""
+    m = re.compile(pat).match(text)
+    if m is None:
+        raise _Undecided(f'{text!r} does not match the pattern')
+    env: dict[str, object] = {}
+    stored: dict[str, object] = {}
+
+    class TD:
+        def __init__(self, minutes):
+            self.minutes = minutes
+
+    def class_const(name: str):
+        for b in cls.body:
+            if isinstance(b, (ast.Assign, ast.AnnAssign)):
+                tg = b.targets[0] if isinstance(b, ast.Assign) else b.target
+                if isinstance(tg, ast.Name) and tg.id == name and b.value is not None:
+                    return ev(b.value)
+        raise _Undecided(f'class attribute {name}')
+
+    def ev(e: ast.AST):
+        if isinstance(e, ast.Constant):
+            return e.value
+        if isinstance(e, ast.Name):
+            if e.id in env:
+                return env[e.id]
+            raise _Undecided(f'name {e.id}')
+        if isinstance(e, ast.Attribute) and isinstance(e.value, ast.Name) and e.value.id in ('self', 'cls', 'clz', cls.name):
+            if e.attr in stored:
+                return stored[e.attr]
+            return class_const(e.attr)
+        if isinstance(e, ast.UnaryOp):
+            v = ev(e.operand)
+            if isinstance(e.op, ast.USub):
+                return -v
+            if isinstance(e.op, ast.Not):
+                return not v
+            if isinstance(e.op, ast.UAdd):
+                return +v
+        if isinstance(e, ast.BinOp):
+            a, b = ev(e.left), ev(e.right)
+            if isinstance(a, TD) or isinstance(b, TD):
+                if isinstance(e.op, ast.Add) and isinstance(a, TD) and isinstance(b, TD):
+                    return TD(a.minutes + b.minutes)
+                if isinstance(e.op, ast.Sub) and isinstance(a, TD) and isinstance(b, TD):
+                    return TD(a.minutes - b.minutes)
+                if isinstance(e.op, ast.Mult) and isinstance(a, TD) and isinstance(b, (int, float)):
+                    return TD(a.minutes * b)
+                if isinstance(e.op, ast.Mult) and isinstance(b, TD) and isinstance(a, (int, float)):
+                    return TD(b.minutes * a)
+                raise _Undecided(norm(e))
+            ops = {ast.Add: lambda x, y: x + y, ast.Sub: lambda x, y: x - y, ast.Mult: lambda x, y: x * y,
+                   ast.FloorDiv: lambda x, y: x // y, ast.Mod: lambda x, y: x % y, ast.Div: lambda x, y: x / y}
+            f = ops.get(type(e.op))
+            if f is None or not all(isinstance(x, (int, float, str)) for x in (a, b)):
+                raise _Undecided(norm(e))
+            try:
+                return f(a, b)
+            except Exception as err:            # noqa: BLE001 - e.g. text + number: the constructor would raise too
+                raise _Undecided(f'{norm(e)}: {err}')
+        if isinstance(e, ast.BoolOp):
+            vals = [ev(v) for v in e.values]
+            if isinstance(e.op, ast.And):
+                out = True
+                for v in vals:
+                    out = v
+                    if not v:
+                        break
+                return out
+            out = False
+            for v in vals:
+                out = v
+                if v:
+                    break
+            return out
+        if isinstance(e, ast.Compare):
+            left = ev(e.left)
+            for op, c in zip(e.ops, e.comparators):
+                right = ev(c)
+                r = {ast.Eq: lambda: left == right, ast.NotEq: lambda: left != right, ast.Lt: lambda: left < right,
+                     ast.LtE: lambda: left <= right, ast.Gt: lambda: left > right, ast.GtE: lambda: left >= right,
+                     ast.Is: lambda: left is right, ast.IsNot: lambda: left is not right,
+                     ast.In: lambda: left in right, ast.NotIn: lambda: left not in right}[type(op)]()
+                if not r:
+                    return False
+                left = right
+            return True
+        if isinstance(e, ast.IfExp):
+            return ev(e.body) if ev(e.test) else ev(e.orelse)
+        if isinstance(e, (ast.Tuple, ast.List)):
+            return tuple(ev(x) for x in e.elts)
+        if isinstance(e, ast.Call):
+            cn = call_name(e) or ''
+            if isinstance(e.func, ast.Attribute) and e.func.attr == 'match' and 'tzinfo' in norm(e.func.value).lower() or \
+                    (cn in ('re.match',) and e.args):
+                return m
+            if isinstance(e.func, ast.Attribute) and e.func.attr in ('group', 'groupdict', 'groups'):
+                recv = ev(e.func.value)
+                if recv is m:
+                    return getattr(m, e.func.attr)(*[ev(a) for a in e.args])
+            if cn == 'int' and e.args:
+                args = [ev(a) for a in e.args]
+                try:
+                    return int(*args)
+                except Exception as err:        # noqa: BLE001
+                    raise _Undecided(f'int{tuple(args)!r}: {err}')
+            if cn in ('abs', 'min', 'max', 'divmod', 'float', 'str', 'len') and e.args:
+                args = [ev(a) for a in e.args]
+                return {'abs': abs, 'min': min, 'max': max, 'divmod': divmod, 'float': float, 'str': str, 'len': len}[cn](*args)
+            if cn.endswith('timedelta'):
+                scale = {'days': 1440, 'hours': 60, 'minutes': 1, 'seconds': 1 / 60}
+                tot = 0
+                for i, a in enumerate(e.args):
+                    tot += ev(a) * [1440, 1 / 60, 1 / 60e6][i] if i < 3 else 0
+                for k in e.keywords:
+                    if k.arg not in scale:
+                        raise _Undecided(f'timedelta({k.arg}=)')
+                    tot += ev(k.value) * scale[k.arg]
+                return TD(tot)
+            if isinstance(e.func, ast.Attribute) and isinstance(e.func.value, ast.Call) \
+                    and norm(e.func.value.func) == 'super':
+                return None
+        if isinstance(e, ast.Subscript):
+            v = ev(e.value)
+            if v is m:
+                return m[ev(e.slice)]
+            if isinstance(v, (tuple, str)) and isinstance(e.slice, ast.Constant):
+                return v[e.slice.value]
+        raise _Undecided(norm(e)[:60])
+
+    class _Raise(Exception):
+        pass
+
+    def run(stmts):
+        for st in stmts:
+            if isinstance(st, ast.Expr):
+                if isinstance(st.value, ast.Constant):
+                    continue
+                try:
+                    ev(st.value)
+                except _Undecided:
+                    pass
+            elif isinstance(st, (ast.Assign, ast.AnnAssign)):
+                if getattr(st, 'value', None) is None:
+                    continue
+                tg = st.targets[0] if isinstance(st, ast.Assign) else st.target
+                if isinstance(tg, ast.Attribute) and isinstance(tg.value, ast.Name) and tg.value.id == 'self':
+                    try:
+                        stored[tg.attr] = ev(st.value)
+                    except _Undecided:
+                        if tg.attr.lstrip('_').endswith('offset'):
+                            raise
+                        stored[tg.attr] = None
+                    continue
+                v = ev(st.value)
+                if isinstance(tg, ast.Name):
+                    env[tg.id] = v
+                elif isinstance(tg, ast.Tuple) and isinstance(v, tuple) and len(v) == len(tg.elts):
+                    for t_, x in zip(tg.elts, v):
+                        if isinstance(t_, ast.Name):
+                            env[t_.id] = x
+                else:
+                    raise _Undecided(norm(st)[:60])
+            elif isinstance(st, ast.AugAssign) and isinstance(st.target, ast.Name):
+                env[st.target.id] = ev(ast.BinOp(left=ast.Name(id=st.target.id, ctx=ast.Load()), op=st.op, right=st.value))
+            elif isinstance(st, ast.If):
+                run(st.body if ev(st.test) else st.orelse)
+            elif isinstance(st, ast.Raise):
+                raise _Raise()
+            elif isinstance(st, ast.Pass):
+                pass
+            else:
+                raise _Undecided(f'statement {type(st).__name__}')
+    params = [a.arg for a in init.args.args if a.arg != 'self']
+    if params:
+        env[params[0]] = text
+    try:
+        run(init.body)
+    except _Raise:
+        return 'raises'
+    tds = [v for k, v in stored.items() if isinstance(v, TD)]
+    if len(tds) != 1:
+        raise _Undecided('no single timedelta is stored')
+    return tds[0].minutes
+
+
 def _offset_linear(fn: ast.FunctionDef, negative: bool):
     """symbolic evaluation of FixedOffsetTimeZone.__init__: the timedelta stored as the offset,
     in minutes, as (coefficient of hour, coefficient of minute, constant) under the given sign"""
@@ -504,12 +720,16 @@ def _offset_linear(fn: ast.FunctionDef, negative: bool):
         if isinstance(e, ast.Name) and e.id in env:
             return env[e.id]
         if isinstance(e, ast.Call) and call_name(e) == 'int' and e.args:
-            a = norm(e.args[0])
-            if "group('hour')" in a:
+            a0 = e.args[0]
+            a = norm(a0)
+            plain = isinstance(a0, ast.Call) and isinstance(a0.func, ast.Attribute) and a0.func.attr == 'group'
+            if "group('hour')" in a and plain:
                 return (1, 0, 0)
-            if "group('minute')" in a:
+            if "group('minute')" in a and plain:
                 return (0, 1, 0)
-            return ev(e.args[0])
+            if 'group(' in a:
+                return None                 # the group text is worked on before it is converted: not read as linear
+            return ev(a0)
         if isinstance(e, ast.UnaryOp) and isinstance(e.op, ast.USub):
             v = ev(e.operand)
             return None if v is None else tuple(-x for x in v)
